@@ -638,7 +638,12 @@ func (p *Parser) parseTernaryExpression(condition ast.Expression) ast.Expression
 		Condition: condition,
 	}
 	p.nextToken() //skip the '?'
-	precedence := p.curPrecedence()
+
+	// Each arm is a complete expression: the ternary operator binds
+	// more loosely than everything else.  (The precedence used to be
+	// taken from the first token of the arm, so "a ? -1 : 2 + 3" was
+	// read as "(a ? -1 : 2) + 3" and "a ? (1) + 2 : 3" was rejected.)
+	precedence := LOWEST
 	expression.IfTrue = p.parseExpression(precedence)
 
 	// error?
